@@ -350,16 +350,16 @@ def run_batch(build, cases, sig, workdir, name, modes=MODES, trace=None, variabl
             env["ALDOR_VERIF_TRACE"] = trace[m][0]
             env["ALDOR_VERIF_BCALL"] = trace[m][1]
         if m == "q0i":
-            rc, out, err, to = vlib.aldor(build, ["-Q0", "-Ginterp", name + ".as"], cwd=workdir, timeout=300, env=env)
+            rc, out, err, to = vlib.aldor(build, ["-Q0", "-Ginterp", name + ".as"], cwd=workdir, timeout=1200, env=env)
         elif m in ("q2i", "q2v"):
-            rc, out, err, to = vlib.aldor(build, Q2_OPTS + ["-Ginterp", name + ".as"], cwd=workdir, timeout=300, env=env)
+            rc, out, err, to = vlib.aldor(build, Q2_OPTS + ["-Ginterp", name + ".as"], cwd=workdir, timeout=1200, env=env)
         elif m == "q0c":
-            rc, out, err, to = vlib.aldor(build, ["-Q0", "-Fc", "-Fmain", name + ".as"], cwd=workdir, timeout=300, env=env)
+            rc, out, err, to = vlib.aldor(build, ["-Q0", "-Fc", "-Fmain", name + ".as"], cwd=workdir, timeout=1200, env=env)
             if rc == 0 and not to:
-                rc2, o2, e2, to2 = vlib.link_c(build, workdir, [name + ".c", name + "-aldormain.c"], name + ".exe", timeout=300)
+                rc2, o2, e2, to2 = vlib.link_c(build, workdir, [name + ".c", name + "-aldormain.c"], name + ".exe", timeout=1200)
                 if rc2 != 0 or to2:
                     raise vlib.MachineryError("gcc failed on generated C for %s: %s" % (name, (o2 + e2).decode(errors="replace")[-2000:]))
-                rc, out, err, to = vlib.run([os.path.join(workdir, name + ".exe")], cwd=workdir, timeout=300)
+                rc, out, err, to = vlib.run([os.path.join(workdir, name + ".exe")], cwd=workdir, timeout=1200)
         else:
             raise ValueError(m)
         text_err = (err or b"").decode(errors="replace")
